@@ -62,7 +62,8 @@ def c08_case(draw):
     return dict(shape=shape, xs=xs, xs2=xs2, i=i, method=method, n=n, order=order, template=template,
                 coefs=coefs, d=d, a_kind=a_kind, k_kind=k_kind, a=a_vals, k=k_vals, a2=a_vals2,
                 k2=k_vals2, step=step, num_extrap=draw(st.integers(0, 6)),
-                log10_step=draw(st.floats(-4.0, -1.0)))
+                log10_step=draw(st.floats(-4.0, -1.0)),
+                layout=draw(st.sampled_from(['C', 'C', 'F', 'S'])), layout2=draw(st.sampled_from(['C', 'F', 'S'])))
 
 
 def base_function(template, c, d):
@@ -99,7 +100,7 @@ class Recorder(object):
 class C08(Prop):
     id = 'C08'
     title = 'Array inputs are handled elementwise and keep their shape'
-    rule = ('Hypothesis draws a shape with 0..3 axes and <= 40 elements, x = +-10^U(-3,2) per element, an '
+    rule = ('Hypothesis draws a shape with 0..3 axes and <= 40 elements (C-ordered, Fortran-ordered or a strided view), x = +-10^U(-3,2) per element, an '
             'index i, a second array x\' equal to x at i and redrawn elsewhere, method, n, order, a test '
             'function from four templates using only + - * / sqrt (correctly rounded), an optional extra '
             'positional argument (scalar or array like x) and an optional keyword argument.  Compared: '
@@ -170,8 +171,18 @@ class C08(Prop):
         shape = tuple(case['shape'])
         i = case['i']
         method = case['method']
-        x = np.array(case['xs'], dtype=float).reshape(shape)
-        x2 = np.array(case['xs2'], dtype=float).reshape(shape)
+        def laid_out(arr, layout):
+            # same logical array in C order, Fortran order, or as a strided (non-contiguous) view
+            if arr.ndim == 0 or layout == 'C':
+                return arr
+            if layout == 'F':
+                return np.asfortranarray(arr)
+            wide = np.zeros(arr.shape[:-1] + (2 * arr.shape[-1],))
+            wide[..., ::2] = arr
+            return wide[..., ::2]
+        x = laid_out(np.array(case['xs'], dtype=float).reshape(shape), case.get('layout', 'C'))
+        x2 = laid_out(np.array(case['xs2'], dtype=float).reshape(shape), case.get('layout2', 'C'))
+        ctx.count('memory layout x/x\'=%s/%s' % (case.get('layout', 'C'), case.get('layout2', 'C')))
 
         def arg(kind, vals):
             if kind == 'array':
